@@ -3,6 +3,11 @@
 // check of an n-link reference chain (well-typed, or `dchain`: with an ill-typed last element)
 // against a recursive named type in a 256 KiB-stack thread.
 //   output: <verdict> steps=<n> rerun=<same|DIFF>
+// `seq ...` lines: a SEQUENCE of check_type calls on ONE TypeCheckContext and one PDFObjContext
+// (format: tc_common.rs / lean/Driver/C09Seq.lean); every step is also run ALONE (everything
+// decoded afresh, the registrations of the earlier steps performed, none of the earlier checks
+// run) and must give the same verdict and work count as inside the sequence.
+//   output: <verdict> steps=<n> | <verdict> steps=<n> | ... alone=<same|DIFF:step:verdict:steps>
 #[path = "../tc_common.rs"]
 mod tc_common;
 use verif_harness::*;
@@ -72,11 +77,58 @@ fn run_twice(line: &str) -> String {
     format!("{} steps={} rerun={}", v1, s1, same)
 }
 
+/// runs the steps of a `seq` line in order on one context; `only` = Some(j): performs the
+/// constructions (registrations) of steps 0..=j but runs only the check of step j
+fn run_seq(line: &str, only: Option<usize>) -> Option<Vec<(String, u64)>> {
+    let mut d = tc_common::Dec::new(line);
+    let _seq = d.tok();
+    let (mut tctx, ents) = d.ctx_entries();
+    let ctxt = d.graph();
+    let k = d.num();
+    let mut out = Vec::new();
+    for i in 0 .. k {
+        let chk = d.step_chk(&mut tctx, &ents);
+        let obj = d.obj();
+        match only {
+            None => out.push(tc_common::run_one(&ctxt, &tctx, &obj, &chk)),
+            Some(j) if j == i => {
+                out.push(tc_common::run_one(&ctxt, &tctx, &obj, &chk));
+                return Some(out)
+            },
+            Some(_) => {},
+        }
+    }
+    if !d.done() {
+        return None
+    }
+    Some(out)
+}
+
+fn run_seq_line(line: &str) -> String {
+    let seq = match run_seq(line, None) {
+        None => return "bad-case".to_string(),
+        Some(v) => v,
+    };
+    let mut alone = "same".to_string();
+    for (i, r) in seq.iter().enumerate() {
+        let a = run_seq(line, Some(i)).unwrap();
+        if a[0] != *r {
+            alone = format!("DIFF:{}:{}:{}", i, a[0].0.replace(' ', "_"), a[0].1);
+            break
+        }
+    }
+    let steps: Vec<String> = seq.iter().map(|(v, s)| format!("{} steps={}", v, s)).collect();
+    format!("{} alone={}", steps.join(" | "), alone)
+}
+
 // every case runs in a worker process under a watchdog: `hang` / `crash:<rc>` instead of a verdict
 pub fn run(line: &str) -> String { tc_common::guarded(line, run_direct) }
 
 fn run_direct(line: &str) -> String {
     let w: Vec<&str> = line.split_whitespace().collect();
+    if w.first() == Some(&"seq") {
+        return run_seq_line(line)
+    }
     let deep = w.len() == 3 && (w[0] == "dchain" || w[0] == "bigdchain");
     if deep || (w.len() == 3 && (w[0] == "chain" || w[0] == "bigchain")) {
         let n: usize = w[1].parse().unwrap();
